@@ -1,11 +1,195 @@
-import TinysetModel.Proofs.Consts
-/-! C09 — see /verif/properties.jsonl.  Theorems for this property are being added; the ones
-below are the obligations checked so far. -/
+import TinysetModel.Proofs.PropsAux
+import TinysetModel.Proofs.Demo
+/-! C09 — union and difference operators compute exactly the mathematical result.
+
+Model functions (`Model/Ops.lean`, following `src/copyset.rs` and `src/set64.rs`):
+`unionRef` = `&a | &b` (starts from `with_capacity_of` the larger operand, two insert loops), `unionOwn` = `a | &b`
+(extends the consumed left operand), `diffRef` = `&a - &b` (`with_capacity_of(a)`, inserts the members of `a`
+not contained in `b`), `diffOwn` = `a - &b` (remove loop on the consumed left operand), and `unionRef64`,
+`diffRef64` = the two borrowed operators of `Set64<T>` (which start from `new()`).
+Each theorem: for every RNG oracle, state and fuel, whenever the operator returns, the result is well formed,
+has exactly the mathematical members, and its `len` is the number of those members (the length of a
+duplicate-free list of them).  The operands `a`, `b` are only hypotheses `WF c a`, `WF c b`: every combination
+of layouts, sizes and overlap, including `a` and `b` being the same set (`*_self`).
+"Borrowed operands are left unchanged": in the functional model the operands are values and are not among the
+outputs of the operator; that the Rust code does not write through `&a`, `&b` is C18 (checked by the harness). -/
 namespace C09
 open SC
 
-/-- the model's constants are the ones in the current source -/
-theorem consts_match : TinyC.codec64.splits = Gen.bitsplits64 ∧ TinyC.codec32.splits = Gen.bitsplits32 :=
-  ⟨bitsplits64_match, bitsplits32_match⟩
+section generic
+variable {c : Cfg} {D : Type}
+
+/-- `&a | &b` -/
+theorem union_ref (ok : CfgOK c) (g : Rng D) (fuel : Nat) {a b res : Rp} {d d' : D}
+    (wa : WF c a) (wb : WF c b) (h : unionRef c g fuel a b d = .ok (res, d')) :
+    WF c res ∧ (∀ x, x ∈ elems c res ↔ (x ∈ elems c a ∨ x ∈ elems c b)) ∧
+      len res = (elems c a ++ (elems c b).filter (· ∉ elems c a)).length :=
+  unionRef_ok ok (coreOK ok g fuel) wa wb h
+
+/-- `a | &b` (left operand consumed and extended in place) -/
+theorem union_own (ok : CfgOK c) (g : Rng D) (fuel : Nat) {a b res : Rp} {d d' : D}
+    (wa : WF c a) (wb : WF c b) (h : unionOwn c g fuel a b d = .ok (res, d')) :
+    WF c res ∧ (∀ x, x ∈ elems c res ↔ (x ∈ elems c a ∨ x ∈ elems c b)) ∧
+      len res = (elems c a ++ (elems c b).filter (· ∉ elems c a)).length :=
+  unionOwn_ok (coreOK ok g fuel) wa wb h
+
+/-- `&a | &b` of `Set64<T>` -/
+theorem union_ref64 (ok : CfgOK c) (g : Rng D) (fuel : Nat) {a b res : Rp} {d d' : D}
+    (wa : WF c a) (wb : WF c b) (h : unionRef64 c g fuel a b d = .ok (res, d')) :
+    WF c res ∧ (∀ x, x ∈ elems c res ↔ (x ∈ elems c a ∨ x ∈ elems c b)) ∧
+      len res = (elems c a ++ (elems c b).filter (· ∉ elems c a)).length :=
+  unionRef64_ok (coreOK ok g fuel) wa wb h
+
+/-- `&a - &b` -/
+theorem diff_ref (ok : CfgOK c) (g : Rng D) (fuel : Nat) {a b res : Rp} {d d' : D}
+    (wa : WF c a) (wb : WF c b) (h : diffRef c g fuel a b d = .ok (res, d')) :
+    WF c res ∧ (∀ x, x ∈ elems c res ↔ (x ∈ elems c a ∧ x ∉ elems c b)) ∧
+      len res = ((elems c a).filter (· ∉ elems c b)).length :=
+  diffRef_ok ok (coreOK ok g fuel) wa wb h
+
+/-- `a - &b` (left operand consumed, members of `b` removed one by one) -/
+theorem diff_own (ok : CfgOK c) (g : Rng D) (fuel : Nat) {a b res : Rp} {d d' : D}
+    (wa : WF c a) (wb : WF c b) (h : diffOwn c g fuel a b d = .ok (res, d')) :
+    WF c res ∧ (∀ x, x ∈ elems c res ↔ (x ∈ elems c a ∧ x ∉ elems c b)) ∧
+      len res = ((elems c a).filter (· ∉ elems c b)).length :=
+  diffOwn_ok (coreOK ok g fuel) wa wb h
+
+/-- `&a - &b` of `Set64<T>` -/
+theorem diff_ref64 (ok : CfgOK c) (g : Rng D) (fuel : Nat) {a b res : Rp} {d d' : D}
+    (wa : WF c a) (wb : WF c b) (h : diffRef64 c g fuel a b d = .ok (res, d')) :
+    WF c res ∧ (∀ x, x ∈ elems c res ↔ (x ∈ elems c a ∧ x ∉ elems c b)) ∧
+      len res = ((elems c a).filter (· ∉ elems c b)).length :=
+  diffRef64_ok (coreOK ok g fuel) wa wb h
+
+/-- both operands the same set: `&a | &a` has the members and `len` of `a` -/
+theorem union_ref_self (ok : CfgOK c) (g : Rng D) (fuel : Nat) {a res : Rp} {d d' : D}
+    (wa : WF c a) (h : unionRef c g fuel a a d = .ok (res, d')) :
+    WF c res ∧ (∀ x, x ∈ elems c res ↔ x ∈ elems c a) ∧ len res = len a :=
+  unionRef_self ok (coreOK ok g fuel) wa h
+
+/-- `&a - &a` is empty -/
+theorem diff_ref_self (ok : CfgOK c) (g : Rng D) (fuel : Nat) {a res : Rp} {d d' : D}
+    (wa : WF c a) (h : diffRef c g fuel a a d = .ok (res, d')) :
+    WF c res ∧ elems c res = [] ∧ len res = 0 :=
+  diffRef_self ok (coreOK ok g fuel) wa h
+
+/-- `a - &a'` with `a'` a clone of `a` (the same value) is empty -/
+theorem diff_own_self (ok : CfgOK c) (g : Rng D) (fuel : Nat) {a res : Rp} {d d' : D}
+    (wa : WF c a) (h : diffOwn c g fuel a a d = .ok (res, d')) :
+    WF c res ∧ elems c res = [] ∧ len res = 0 :=
+  diffOwn_self (coreOK ok g fuel) wa h
+
+/-- what the `len` clauses count: duplicate-free lists of exactly the union / the difference -/
+theorem len_counts (ok : CfgOK c) {a b : Rp} (wa : WF c a) (wb : WF c b) :
+    (elems c a ++ (elems c b).filter (· ∉ elems c a)).Nodup ∧
+    (∀ x, x ∈ elems c a ++ (elems c b).filter (· ∉ elems c a) ↔ (x ∈ elems c a ∨ x ∈ elems c b)) ∧
+    ((elems c a).filter (· ∉ elems c b)).Nodup ∧
+    (∀ x, x ∈ (elems c a).filter (· ∉ elems c b) ↔ (x ∈ elems c a ∧ x ∉ elems c b)) :=
+  ⟨Ops.nodup_union (absOK_of_wf ok wa).nodup (absOK_of_wf ok wb).nodup, Ops.mem_union,
+   Ops.nodup_diff _ (absOK_of_wf ok wa).nodup, Ops.mem_diff⟩
+
+end generic
+
+/-! ### instances: SetU64 / SetUsize (`cfg64`), SetU32 (`cfg32`), Set64<T> (`*_ref64` at `cfg64`) -/
+
+theorem union_ref_u64 {D : Type} (g : Rng D) (fuel : Nat) {a b res : Rp} {d d' : D}
+    (wa : WF cfg64 a) (wb : WF cfg64 b) (h : unionRef cfg64 g fuel a b d = .ok (res, d')) :
+    WF cfg64 res ∧ (∀ x, x ∈ elems cfg64 res ↔ (x ∈ elems cfg64 a ∨ x ∈ elems cfg64 b)) ∧
+      len res = (elems cfg64 a ++ (elems cfg64 b).filter (· ∉ elems cfg64 a)).length :=
+  unionRef_ok cfg64_ok (coreOK cfg64_ok g fuel) wa wb h
+theorem union_own_u64 {D : Type} (g : Rng D) (fuel : Nat) {a b res : Rp} {d d' : D}
+    (wa : WF cfg64 a) (wb : WF cfg64 b) (h : unionOwn cfg64 g fuel a b d = .ok (res, d')) :
+    WF cfg64 res ∧ (∀ x, x ∈ elems cfg64 res ↔ (x ∈ elems cfg64 a ∨ x ∈ elems cfg64 b)) ∧
+      len res = (elems cfg64 a ++ (elems cfg64 b).filter (· ∉ elems cfg64 a)).length :=
+  unionOwn_ok (coreOK cfg64_ok g fuel) wa wb h
+theorem union_ref64_u64 {D : Type} (g : Rng D) (fuel : Nat) {a b res : Rp} {d d' : D}
+    (wa : WF cfg64 a) (wb : WF cfg64 b) (h : unionRef64 cfg64 g fuel a b d = .ok (res, d')) :
+    WF cfg64 res ∧ (∀ x, x ∈ elems cfg64 res ↔ (x ∈ elems cfg64 a ∨ x ∈ elems cfg64 b)) ∧
+      len res = (elems cfg64 a ++ (elems cfg64 b).filter (· ∉ elems cfg64 a)).length :=
+  unionRef64_ok (coreOK cfg64_ok g fuel) wa wb h
+theorem diff_ref_u64 {D : Type} (g : Rng D) (fuel : Nat) {a b res : Rp} {d d' : D}
+    (wa : WF cfg64 a) (wb : WF cfg64 b) (h : diffRef cfg64 g fuel a b d = .ok (res, d')) :
+    WF cfg64 res ∧ (∀ x, x ∈ elems cfg64 res ↔ (x ∈ elems cfg64 a ∧ x ∉ elems cfg64 b)) ∧
+      len res = ((elems cfg64 a).filter (· ∉ elems cfg64 b)).length :=
+  diffRef_ok cfg64_ok (coreOK cfg64_ok g fuel) wa wb h
+theorem diff_own_u64 {D : Type} (g : Rng D) (fuel : Nat) {a b res : Rp} {d d' : D}
+    (wa : WF cfg64 a) (wb : WF cfg64 b) (h : diffOwn cfg64 g fuel a b d = .ok (res, d')) :
+    WF cfg64 res ∧ (∀ x, x ∈ elems cfg64 res ↔ (x ∈ elems cfg64 a ∧ x ∉ elems cfg64 b)) ∧
+      len res = ((elems cfg64 a).filter (· ∉ elems cfg64 b)).length :=
+  diffOwn_ok (coreOK cfg64_ok g fuel) wa wb h
+theorem diff_ref64_u64 {D : Type} (g : Rng D) (fuel : Nat) {a b res : Rp} {d d' : D}
+    (wa : WF cfg64 a) (wb : WF cfg64 b) (h : diffRef64 cfg64 g fuel a b d = .ok (res, d')) :
+    WF cfg64 res ∧ (∀ x, x ∈ elems cfg64 res ↔ (x ∈ elems cfg64 a ∧ x ∉ elems cfg64 b)) ∧
+      len res = ((elems cfg64 a).filter (· ∉ elems cfg64 b)).length :=
+  diffRef64_ok (coreOK cfg64_ok g fuel) wa wb h
+theorem union_ref_self_u64 {D : Type} (g : Rng D) (fuel : Nat) {a res : Rp} {d d' : D}
+    (wa : WF cfg64 a) (h : unionRef cfg64 g fuel a a d = .ok (res, d')) :
+    WF cfg64 res ∧ (∀ x, x ∈ elems cfg64 res ↔ x ∈ elems cfg64 a) ∧ len res = len a :=
+  unionRef_self cfg64_ok (coreOK cfg64_ok g fuel) wa h
+theorem diff_ref_self_u64 {D : Type} (g : Rng D) (fuel : Nat) {a res : Rp} {d d' : D}
+    (wa : WF cfg64 a) (h : diffRef cfg64 g fuel a a d = .ok (res, d')) :
+    WF cfg64 res ∧ elems cfg64 res = [] ∧ len res = 0 :=
+  diffRef_self cfg64_ok (coreOK cfg64_ok g fuel) wa h
+theorem diff_own_self_u64 {D : Type} (g : Rng D) (fuel : Nat) {a res : Rp} {d d' : D}
+    (wa : WF cfg64 a) (h : diffOwn cfg64 g fuel a a d = .ok (res, d')) :
+    WF cfg64 res ∧ elems cfg64 res = [] ∧ len res = 0 :=
+  diffOwn_self (coreOK cfg64_ok g fuel) wa h
+
+theorem union_ref_u32 {D : Type} (g : Rng D) (fuel : Nat) {a b res : Rp} {d d' : D}
+    (wa : WF cfg32 a) (wb : WF cfg32 b) (h : unionRef cfg32 g fuel a b d = .ok (res, d')) :
+    WF cfg32 res ∧ (∀ x, x ∈ elems cfg32 res ↔ (x ∈ elems cfg32 a ∨ x ∈ elems cfg32 b)) ∧
+      len res = (elems cfg32 a ++ (elems cfg32 b).filter (· ∉ elems cfg32 a)).length :=
+  unionRef_ok cfg32_ok (coreOK cfg32_ok g fuel) wa wb h
+theorem union_own_u32 {D : Type} (g : Rng D) (fuel : Nat) {a b res : Rp} {d d' : D}
+    (wa : WF cfg32 a) (wb : WF cfg32 b) (h : unionOwn cfg32 g fuel a b d = .ok (res, d')) :
+    WF cfg32 res ∧ (∀ x, x ∈ elems cfg32 res ↔ (x ∈ elems cfg32 a ∨ x ∈ elems cfg32 b)) ∧
+      len res = (elems cfg32 a ++ (elems cfg32 b).filter (· ∉ elems cfg32 a)).length :=
+  unionOwn_ok (coreOK cfg32_ok g fuel) wa wb h
+theorem diff_ref_u32 {D : Type} (g : Rng D) (fuel : Nat) {a b res : Rp} {d d' : D}
+    (wa : WF cfg32 a) (wb : WF cfg32 b) (h : diffRef cfg32 g fuel a b d = .ok (res, d')) :
+    WF cfg32 res ∧ (∀ x, x ∈ elems cfg32 res ↔ (x ∈ elems cfg32 a ∧ x ∉ elems cfg32 b)) ∧
+      len res = ((elems cfg32 a).filter (· ∉ elems cfg32 b)).length :=
+  diffRef_ok cfg32_ok (coreOK cfg32_ok g fuel) wa wb h
+theorem diff_own_u32 {D : Type} (g : Rng D) (fuel : Nat) {a b res : Rp} {d d' : D}
+    (wa : WF cfg32 a) (wb : WF cfg32 b) (h : diffOwn cfg32 g fuel a b d = .ok (res, d')) :
+    WF cfg32 res ∧ (∀ x, x ∈ elems cfg32 res ↔ (x ∈ elems cfg32 a ∧ x ∉ elems cfg32 b)) ∧
+      len res = ((elems cfg32 a).filter (· ∉ elems cfg32 b)).length :=
+  diffOwn_ok (coreOK cfg32_ok g fuel) wa wb h
+theorem union_ref_self_u32 {D : Type} (g : Rng D) (fuel : Nat) {a res : Rp} {d d' : D}
+    (wa : WF cfg32 a) (h : unionRef cfg32 g fuel a a d = .ok (res, d')) :
+    WF cfg32 res ∧ (∀ x, x ∈ elems cfg32 res ↔ x ∈ elems cfg32 a) ∧ len res = len a :=
+  unionRef_self cfg32_ok (coreOK cfg32_ok g fuel) wa h
+theorem diff_ref_self_u32 {D : Type} (g : Rng D) (fuel : Nat) {a res : Rp} {d d' : D}
+    (wa : WF cfg32 a) (h : diffRef cfg32 g fuel a a d = .ok (res, d')) :
+    WF cfg32 res ∧ elems cfg32 res = [] ∧ len res = 0 :=
+  diffRef_self cfg32_ok (coreOK cfg32_ok g fuel) wa h
+theorem diff_own_self_u32 {D : Type} (g : Rng D) (fuel : Nat) {a res : Rp} {d d' : D}
+    (wa : WF cfg32 a) (h : diffOwn cfg32 g fuel a a d = .ok (res, d')) :
+    WF cfg32 res ∧ elems cfg32 res = [] ∧ len res = 0 :=
+  diffOwn_self (coreOK cfg32_ok g fuel) wa h
+
+/-! ### the hypotheses are satisfiable: mixed layouts (a heap table and an inline set), overlapping operands -/
+
+/-- `{1000, 2^40} | {3, 5, 1000}` and `{1000, 2^40} - {3, 5, 1000}` return -/
+theorem demo_union : unionRef cfg64 detRng 6 Demo.bitmap64 Demo.inline () =
+    .ok (.heap 4 4 23 #[40, 401016175510691840, 0, 360712192], ()) := by decide +kernel
+theorem demo_diff : diffRef cfg64 detRng 6 Demo.bitmap64 Demo.inline () =
+    .ok (.heap 1 3 23 #[401016175510691840, 0, 0], ()) := by decide +kernel
+example : len (.heap 4 4 23 #[40, 401016175510691840, 0, 360712192]) =
+    (elems cfg64 Demo.bitmap64 ++ (elems cfg64 Demo.inline).filter (· ∉ elems cfg64 Demo.bitmap64)).length :=
+  (union_ref_u64 detRng 6 Demo.bitmap64_wf Demo.inline64_wf demo_union).2.2
+example : ∀ x, x ∈ elems cfg64 (.heap 1 3 23 #[401016175510691840, 0, 0]) ↔
+    (x ∈ elems cfg64 Demo.bitmap64 ∧ x ∉ elems cfg64 Demo.inline) :=
+  (diff_ref_u64 detRng 6 Demo.bitmap64_wf Demo.inline64_wf demo_diff).2.1
 
 end C09
+
+#print axioms C09.union_ref
+#print axioms C09.union_own
+#print axioms C09.union_ref64
+#print axioms C09.diff_ref
+#print axioms C09.diff_own
+#print axioms C09.diff_ref64
+#print axioms C09.union_ref_self
+#print axioms C09.diff_ref_self
+#print axioms C09.diff_own_self
